@@ -57,3 +57,20 @@ func init() {
 		Outside: []string{"payloads longer than the bound", "regexp engine internals (EscapeMarkers uses the regexp model)"},
 	})
 }
+
+func init() {
+	register(&CheckSpec{
+		ID:    "CONF",
+		Props: []string{"CONF"},
+		Obligs: func(tier string) []Oblig {
+			var obs []Oblig
+			for k := 0; k < 51; k++ {
+				obs = append(obs, Oblig{Harness: "H_conf", Args: []int{k}})
+			}
+			for k := 100; k < 112; k++ {
+				obs = append(obs, Oblig{Harness: "H_conf", Args: []int{k}})
+			}
+			return obs
+		},
+	})
+}
